@@ -92,9 +92,22 @@ def sym_int(x):
   return int(x)
 
 
+EXP_CHOICES = None      # when set (a tuple of rationals in (0,1]), exp() picks one of them by symbolic choice
+
+
 def sym_exp(x):
   """exp(x) for x <= 0 (the only use: EMA weight exp(-dt/W)): a fresh w in (0,1], w = 1 iff x = 0"""
   E = _E()
+  if EXP_CHOICES and isinstance(x, (SymReal, Exact)):
+    # linear variant: the weight is one of a few concrete values (1 stands for dt = 0); keeps the EMA arithmetic linear
+    rest = [Fraction(c) for c in EXP_CHOICES if Fraction(c) != 1]
+    if isinstance(x, SymReal):
+      if E.decide(x.e == 0): return SymReal(z3.RealVal(1))           # dt = 0  <=>  w = 1
+      i = choose('expw_choice', len(rest), inner=True)
+      return SymReal(z3.RealVal(str(rest[i])))
+    if x == 0: return Exact(1)
+    i = choose('expw_choice', len(rest), inner=True)
+    return Exact(rest[i])
   if isinstance(x, SymReal):
     w = z3.Real(E.fresh_name('expw!'))
     E.add(w > 0, w <= 1, (w == 1) == (x.e == 0), x.e <= 0)
